@@ -207,3 +207,61 @@ func runAliasScenarios(rng *rand.Rand, n int, st *c06Stats, fail func(prop, mon,
 		}()
 	}
 }
+
+// merging from a PARTIAL log (loaded with a length limit): the destination must keep everything it
+// had (C05), its heads must stay the unreferenced entries (C02) and Values() complete (C03)
+func runPartialJoinScenarios(rng *rand.Rand, n int, st *c06Stats, fail func(prop, mon, key, detail string, c interface{})) {
+	ctx := context.Background()
+	for it := 0; it < n; it++ {
+		w := newWorld()
+		writer, _ := ipfslog.NewLog(w.api, w.idents["A"], &ipfslog.LogOptions{ID: "L"})
+		replica, _ := ipfslog.NewLog(w.api, w.idents["B"], &ipfslog.LogOptions{ID: "L"})
+		k := 3 + rng.Intn(10)
+		joinAt := 1 + rng.Intn(k-1)
+		for i := 0; i < k; i++ {
+			if _, err := writer.Append(ctx, []byte(fmt.Sprintf("a%d", i)), &ipfslog.AppendOptions{PointerCount: pick(rng, []int{1, 2, 4, 8, 16})}); err != nil {
+				panic(err)
+			}
+			if i+1 == joinAt {
+				if _, err := replica.Join(writer, -1); err != nil {
+					panic(err)
+				}
+				if rng.Intn(2) == 0 {
+					if _, err := replica.Append(ctx, []byte("own"), nil); err != nil {
+						panic(err)
+					}
+				}
+			}
+		}
+		limit := 1 + rng.Intn(3)
+		head := writer.Heads().Slice()[0].GetHash()
+		partial, err := ipfslog.NewFromEntryHash(ctx, w.api, w.idents["C"], head, &ipfslog.LogOptions{ID: "L"}, &ipfslog.FetchOptions{Length: &limit})
+		if err != nil {
+			panic(err)
+		}
+		st.aliasRuns++
+		caseInfo := map[string]interface{}{"scenario": "join from a partially loaded log", "writer_entries": k, "replica_joined_after": joinAt, "load_limit": limit, "seed_iteration": it}
+		before := snapLog(replica)
+		if _, err := replica.Join(partial, -1); err != nil {
+			fail("C06", "honest-join", "C06:partial-log-join-fails", err.Error(), caseInfo)
+			continue
+		}
+		after := snapLog(replica)
+		for h := range before.entries {
+			if _, ok := after.entries[h]; !ok {
+				fail("C05", "entries-never-vanish", "C05:entry-vanished", "an entry vanished after merging a partially loaded log", caseInfo)
+				break
+			}
+		}
+		if !isSubsequence(before.values, after.values) {
+			fail("C05", "values-subsequence", "C05:values-not-subsequence", fmt.Sprintf("after merging a partially loaded log the previous Values() (%d entries) is not a subsequence of the new one (%d entries)", len(before.values), len(after.values)), caseInfo)
+		}
+		ents := replica.GetEntries().Slice()
+		if want := unreferenced(ents); !eqStrings(sortedCopy(hashesOf(replica.Heads().Slice())), want) {
+			fail("C02", "heads-exact", "C02:heads-not-unreferenced", "heads are not the unreferenced entries after merging a partially loaded log", caseInfo)
+		}
+		if len(after.values) != len(ents) {
+			fail("C03", "values-complete", "C03:incomplete", fmt.Sprintf("Values() has %d of %d entries after merging a partially loaded log", len(after.values), len(ents)), caseInfo)
+		}
+	}
+}
